@@ -105,7 +105,7 @@ def run_translator():
     if p.returncode != 0:
         failed = dict(re.findall(r"FAILED (\w+): (.*)", out))
         if not failed:
-            failed = {"Resolve": out[-1500:], "Facts": out[-1500:], "Action": out[-1500:], "Driver": out[-1500:]}   # the translator itself did not run
+            failed = {"Resolve": out[-1500:], "Facts": out[-1500:], "Action": out[-1500:], "Driver": out[-1500:], "TsDriver": out[-1500:]}   # the translator itself did not run
         return False, failed
     return True, {}
 
@@ -165,7 +165,7 @@ def audit_sources():
 
 TRANSLATOR_ERROR = None
 # which regenerated fragments each proof module imports
-GEN_DEPS = {"Yv.Props.C04": ["Resolve"], "Yv.Props.C04gen": ["Resolve"], "Yv.Props.C14": ["Facts"], "Yv.Props.C19": ["Facts"], "Yv.Props.C05c": ["Action"], "Yv.Props.C08b": ["Driver"], "Yv.Props.EndToEnd": ["Action", "Driver"], "Yv.Props.EndToEndTerm": ["Action", "Driver"]}
+GEN_DEPS = {"Yv.Props.C04": ["Resolve"], "Yv.Props.C04gen": ["Resolve"], "Yv.Props.C14": ["Facts"], "Yv.Props.C19": ["Facts"], "Yv.Props.C05c": ["Action"], "Yv.Props.C08b": ["Driver"], "Yv.Props.EndToEnd": ["Action", "Driver"], "Yv.Props.EndToEndTerm": ["Action", "Driver"], "Yv.Props.C08c": ["TsDriver"]}
 TIER = "quick"
 
 
